@@ -45,10 +45,13 @@ static void run_case(long idx)
 {
     vrng r = vr_make(V.seed, 106, (uint64_t)idx);
     int fam = (int)vr_u(&r, DF_NB); if (vr_chance(&r, 1, 3)) fam = vr_chance(&r, 1, 2) ? DF_RANDOM : DF_ISLANDS;   /* emphasise incompressible / splitter-fooling */
-    size_t const n = pick_size(&r, g_maxSize);
+    int const giantStratum = vr_chance(&r, 1, 12);      /* blocks whose match-length table description holds a long run of zero-probability symbols (short matches + one giant match) */
+    if (giantStratum) fam = DF_SPARSE;
+    size_t const n = giantStratum ? V_MIN(g_maxSize, (size_t)(90000 + vr_u(&r, 110000))) : pick_size(&r, g_maxSize);
+    v_sparse_giant_force = giantStratum;
     cjob J; memset(&J, 0, sizeof J);
     J.ep = (int)vr_u(&r, EP_NB); if (J.ep == EP_COMPRESS2_MT && n < 600000) J.ep = EP_COMPRESS2;
-    gbuf src = gb_alloc(n, 0); gen_data(&r, src.p, n, fam);
+    gbuf src = gb_alloc(n, 0); gen_data(&r, src.p, n, fam); v_sparse_giant_force = 0; if (giantStratum) v_stat("giant_match_stratum_inputs", 1);
     J.src = src.p; J.n = n; J.level = (int)vr_range(&r, -3, 12);
     uint8_t* dict = NULL;
     vp_random(&r, &J.P, (J.ep == EP_COMPRESS2_MT ? VP_MT : 0) | VP_MAGICLESS);
@@ -78,7 +81,7 @@ static void run_case(long idx)
     v_stat("inputs", 1);
     /* reference run at bound */
     size_t refSize; int incomplete;
-    size_t caps[96]; int nc = 0;
+    size_t caps[420]; int nc = 0;
     {   gbuf ref = gb_alloc(bound, 0);
         refSize = compress_into(&J, cctx, ref.p, bound, &incomplete);
         if (ZSTD_isError(refSize)) {
@@ -97,7 +100,12 @@ static void run_case(long idx)
         if (refdec_decode(tmp, n, ref.p, refSize, rd, &I, 0)) {
             size_t const step = I.nb_blocks > 12 ? I.nb_blocks / 12 : 1;
             if (I.nb_frames) { size_t h = I.frames[0].header_size; caps[nc++] = h; caps[nc++] = h + 1; caps[nc++] = h + 2; caps[nc++] = h + 3; caps[nc++] = h + 4; }
-            for (size_t b = 0; b < I.nb_blocks && nc < 80; b += step) { size_t e = I.blocks[b].src_off + 3 + I.blocks[b].csize; caps[nc++] = e; caps[nc++] = e + 1; caps[nc++] = e > 0 ? e - 1 : 0; caps[nc++] = e + 2; if (e >= 2) caps[nc++] = e - 2; caps[nc++] = I.blocks[b].src_off + 3; }
+            for (size_t b = 0; b < I.nb_blocks && nc < 100; b += step) { size_t e = I.blocks[b].src_off + 3 + I.blocks[b].csize; caps[nc++] = e; caps[nc++] = e + 1; caps[nc++] = e > 0 ? e - 1 : 0; caps[nc++] = e + 2; if (e >= 2) caps[nc++] = e - 2; caps[nc++] = I.blocks[b].src_off + 3; }
+            /* dense window: every capacity across the sequence-section header and table descriptions of one compressed block (where the entropy-table writers run) */
+            {   size_t cand[64]; int ncand = 0; for (size_t b = 0; b < I.nb_blocks && ncand < 64; b++) if (I.blocks[b].type == 2 && I.blocks[b].nb_seq && I.blocks[b].seq_tables_size) cand[ncand++] = b;
+                if (ncand) { const refdec_block_t* B = &I.blocks[cand[vr_u(&r, (uint32_t)ncand)]]; size_t const e = B->src_off + 3 + B->csize; size_t const tabStart = e - B->seq_bitstream_size - B->seq_tables_size;
+                    size_t const lo = tabStart > 8 ? tabStart - 8 : 0; size_t hi = tabStart + B->seq_tables_size + 12; if (hi - lo > 300) hi = lo + 300;
+                    for (size_t c = lo; c <= hi && nc < 400; c++) caps[nc++] = c; v_stat("dense_windows_over_table_descriptions", 1); v_statmax("longest_table_description", (long)B->seq_tables_size); } }
             v_stat("ref_blocks", (long)I.nb_blocks);
         } else v_viol("compress:R-rejects-reference-frame", "ep=%s n=%zu params=[%s] R=%s", ep_name[J.ep], n, J.P.desc, I.err ? I.err : "?");
         refdec_info_free(&I); refdec_dict_free(rd); free(tmp);
